@@ -674,7 +674,9 @@ func (w *c03World) build() {
 	// ---- util.UnmarshalTokenKey
 	der1, _ := util.MarshalTokenKey(&rk[0].PublicKey, false)
 	der2, _ := util.MarshalTokenKey(&rk[0].PublicKey, true)
+	pssAlg, rsaAlg := spkiAlgs()
 	w.add(&c03Target{name: "util.UnmarshalTokenKey", seeds: [][]byte{der1, der2},
+		rebuild: func(r *core.Rand) [][]byte { return rebuildTokenKeyDER(r, rk[0].N, rk[0].E, pssAlg, rsaAlg) },
 		fields: func(b []byte) []lenField {
 			// DER length octets of the outer SEQUENCE and the first inner one
 			var fs []lenField
